@@ -308,6 +308,9 @@ class C09(Check):
         fams = [
             ("depth2", lambda: (("t", s) for s in gen.depth2(gen.ALL_CTORS, leaves))),
             ("nest2", lambda: (("t", s) for _, s in gen.nest2(gen.ALL_CTORS, gen.ALL_CTORS))),
+            ("hash-twins", lambda: (("t", s) for s in gen.twin_trees())),
+            ("typed-twins", lambda: (("t", s) for s in gen.twin_trees(
+                gen.TYPED_TWINS, V("x"), V("y")))),
             ("sharing", self.gen_sharing),
             ("instance-histories", self.gen_histories),
             ("nest3", lambda: (("t", s) for _, s in gen.nest3(N3, N3, N3))),
